@@ -104,6 +104,10 @@ def component_case(draw):
         c["handler"] = draw(handler_cfg(draw(st.lists(st.sampled_from(["DSC", "IOU", "ASSD", "RVD", "clDSC"]), min_size=1, max_size=5, unique=True))))
     elif what == "zerotp":
         c["vals"] = [draw(st.sampled_from(RES)) for _ in range(4)]
+        if draw(st.booleans()):  # built from default_result plus some explicit scenarios
+            default, explicit = draw(st.sampled_from(RES)), [draw(st.booleans()) for _ in range(4)]
+            c["vals"] = [v if e else default for v, e in zip(c["vals"], explicit)]
+            c["via_default"] = [default, explicit]
     elif what == "labelgroup":
         c["group"] = draw(gen.group_defs(max_groups=1))[0]
     elif what == "classgroups":
@@ -373,8 +377,7 @@ def check_component(case, stats, d):
             obj = lib.handler(case["handler"])
             cls, mets = EdgeCaseHandler, list(case["handler"]["metrics"])
         else:
-            v = [lib.edge_result(x) for x in case["vals"]]
-            obj = MetricZeroTPEdgeCaseHandling(no_instances_result=v[0], empty_prediction_result=v[1], empty_reference_result=v[2], normal=v[3])
+            obj = list(lib.handler({"std": "NAN", "metrics": {"DSC": case["vals"]}, "via_default": {"DSC": case["via_default"]} if "via_default" in case else {}}).listmetric_zeroTP_handling.values())[0]
             cls, mets = MetricZeroTPEdgeCaseHandling, [None]
         loaded, _ = roundtrip(obj, cls, d, "h")
         for m in mets:
@@ -384,6 +387,9 @@ def check_component(case, stats, d):
                     r2 = loaded.handle_zero_tp(lib.metric(m), tp, npred, nref)
                 else:
                     r1, r2 = obj(tp, npred, nref), loaded(tp, npred, nref)
+                    want = (False, None) if tp else (True, lib.EDGE_VALUES[case["vals"][{(0, 0): 0, (0, 1): 1, (1, 0): 2, (1, 1): 3}[(npred > 0, nref > 0)]]])
+                    if r1[0] != want[0] or (want[0] and not H.same_value(r1[1], want[1], 0)):
+                        raise Violation(f"MetricZeroTPEdgeCaseHandling built from {case['vals']} (via_default={case.get('via_default')}) answers {r1} for tp/pred/ref={tp}/{npred}/{nref}, configured {want}")
                 if r1[0] != r2[0] or not H.same_value(r1[1], r2[1], 0):
                     raise Violation(f"loaded {cls.__name__} answers {r2} instead of {r1} for metric {m}, tp/pred/ref={tp}/{npred}/{nref}")
         if what == "handler":
